@@ -455,3 +455,91 @@ def feature_names_rule(ctx, run):
     run.oblige("C02.R8", "FeatureFactory.get_class returns the class stored under the requested key", not problems, "; ".join(problems))
     if problems:
         run.fail(Finding("C02.R8", gc.qualname, "; ".join(problems)[:300], "the name lookup does not return the class registered under that name", file=str(prog.modules[gc.module].path), line=gc.node.lineno))
+
+
+AXIS_OPS = {"cumsum", "cumprod", "cummax", "cummin", "flip", "diff", "roll", "sort", "topk", "max", "min", "amax", "amin", "mean", "sum", "prod", "logsumexp",
+            "softmax", "cat", "stack", "argmax", "argmin", "median", "quantile", "std", "var", "norm", "any", "all", "logcumsumexp", "kthvalue", "unbind", "split", "chunk"}
+LAYOUT_OPS = {"transpose", "permute", "T", "attr_T", "attr_mT", "view", "reshape", "flatten", "unfold", "movedim", "swapaxes", "conv1d", "matmul", "mulm", "bmm", "einsum", "fft"}
+ELEMENTWISE_MINMAX = {"max", "min"}
+
+
+CAUSAL_SCANS = {"cumsum", "cumprod", "cummax", "cummin", "logcumsumexp"}
+
+
+def _time_mixing(value, feature_input, causal_ok=False):
+    """operators in a model's output term that act along an axis other than the last one (the feature axis) of the (N, T, F) input;
+    causal_ok: a running sum / extremum along the time axis (dim -2 or 1) of an un-reversed tensor only looks back and is not reported"""
+    bad = []
+    for s_ in walk(value):
+        if not isinstance(s_, Op):
+            continue
+        kw = s_.kwd()
+        if causal_ok and s_.op in CAUSAL_SCANS and kw.get("dim", s_.args[1] if len(s_.args) > 1 else None) in (-2, 1) \
+                and not any(isinstance(x_, Op) and x_.op in ("flip", "roll", "sort") for x_ in walk(s_.args[0])):
+            continue
+        if s_.op in AXIS_OPS:
+            if s_.op in ELEMENTWISE_MINMAX and len(s_.args) == 2 and isinstance(s_.args[1], (Op, Sym)) and "dim" not in kw:
+                continue  # torch.max(a, b): element-wise
+            dim = kw.get("dim", kw.get("dims", s_.args[1] if len(s_.args) > 1 and isinstance(s_.args[1], (int, tuple, list)) and not isinstance(s_.args[1], bool) else None))
+            dims = list(dim) if isinstance(dim, (tuple, list)) else [dim]
+            if any(d_ is None or d_ != -1 for d_ in dims):
+                bad.append(f"{s_.op}(dim={dim}) acts along an axis that is not the feature axis")
+        elif s_.op in LAYOUT_OPS:
+            bad.append(f"{s_.op} re-arranges the axes of the model input")
+        elif s_.op in ("index", "getitem") and any(x_ == feature_input for x_ in walk(s_.args[0])):
+            if isinstance(s_.args[0], Op) and s_.args[0].op in ("autograd_grad", "size", "attr_shape", "broadcast_tensors"):
+                continue  # element of a tuple (gradients per input, extents), not a position in the tensor
+            idx = s_.args[1]
+            ok = isinstance(idx, tuple) and len(idx) == 2 and idx[0] is Ellipsis
+            if not ok:
+                bad.append(f"the input is indexed with {str(idx)[:40]} (only [..., <feature columns>] keeps paths and steps apart)")
+    return sorted(set(bad))
+
+
+def models_pointwise_in_time(ctx, run, rule="C02.R4t", causal_ok=True):
+    """R4t: a built-in model maps the (N, T, F) feature tensor to the (N, T, H) hedge without looking ahead: no operator of its forward acts
+    along the path axis, re-arranges axes, or reduces / shifts / reverses along the time axis (evaluated for all steps at once, step t would
+    see step t+1) - the tensor is indexed as input[..., columns] and reduced / concatenated along the last axis.  Under C02 a running sum or
+    extremum that only looks back is admitted; C03.R2m uses the same scan without that exception (the step-by-step evaluation hands the model
+    one step at a time, so any operator along time makes the two evaluation modes differ)."""
+    prog, interp = ctx.prog, ctx.interp
+    run.require(rule, 6)
+    inp = W.tensor("input")
+    cases = []
+    for mq in BSMODS:
+        cq = MOD + mq
+        delta = prog.lookup_method(cq, "delta")
+        n_in = len([a for a in delta.node.args.args[1:] if a.arg != "create_graph"])
+        cases.append((mq.rsplit(".", 1)[-1], Obj(cq, "bs", {"call": True, "strike": W.fl("bs.strike"), "derivative": None}), n_in))
+    deriv = Obj("pfhedge.instruments.derivative.european.EuropeanOption", "deriv", {"strike": W.fl("K"), "call": True})
+    deriv.attrs["underlier"] = Obj(W.PRIMARY, "ul", {"cost": W.fl("cost")})
+    bs = Obj(MOD + "bs.european.BSEuropeanOption", "bs", {"call": True, "strike": W.fl("K"), "derivative": deriv})
+    cases.append(("WhalleyWilmott", Obj(MOD + "ww.WhalleyWilmott", "ww", {"a": W.fl("a"), "bs": bs, "derivative": deriv}), 4))
+    cases.append(("Naked", Obj(MOD + "naked.Naked", "naked", {"out_features": 1}), 3))
+    for label, o, n_in in cases:
+        fwd = prog.lookup_method(o.cls, "forward")
+        if fwd is None:
+            raise AnalysisError(f"anchor vanished: {o.cls}.forward")
+        interp.shapes["input"] = (W.integer("N"), W.integer("T"), n_in)
+        try:
+            res = [r for r in interp.explore(fwd, [inp], {}, self_obj=o, max_paths=80) if not r["raises"]]
+        except Unsupported as ex:
+            raise AnalysisError(f"{label}.forward: {ex}")
+        finally:
+            interp.shapes.pop("input", None)
+        if not res:
+            raise AnalysisError(f"{label}.forward: no analysable path")
+        bad = sorted({b_ for r in res for b_ in _time_mixing(r["value"], inp, causal_ok)})
+        run.oblige(rule, f"{label}.forward acts step by step", not bad, "; ".join(bad) or "indexing [..., columns] and last-axis operators only")
+        if bad:
+            run.fail(Finding(rule, fwd.qualname, f"{label}: " + "; ".join(bad)[:280], "the model mixes steps (or paths) of its input: evaluated for all steps at once, the hedge at step t depends on "
+                             + ("later steps" if causal_ok else "other steps, which the step-by-step evaluation never shows it"),
+                             file=str(prog.modules[fwd.module].path), line=fwd.node.lineno))
+
+
+_check_before_r4t = check
+
+
+def check(ctx, run):  # noqa: F811
+    _check_before_r4t(ctx, run)
+    models_pointwise_in_time(ctx, run)
